@@ -73,11 +73,48 @@ func checkC13(c *core.Ctx, r *core.Report) {
 				}
 			}
 		}
+		name := shortFn(fn)
 		if len(loads) == 0 {
+			// no organisation field is read: does the function nevertheless enumerate organisation-tagged elements
+			// (reads other fields of loop-variant values of a tagged struct type)?
+			tagged := map[string]bool{}
+			for _, tn := range orgFields {
+				tagged[tn] = true
+			}
+			var at ssa.Instruction
+			for _, b := range fn.Blocks {
+				l := core.InnermostLoop(loops, b)
+				if l == nil {
+					continue
+				}
+				for _, in := range b.Instrs {
+					fa, ok := in.(*ssa.FieldAddr)
+					if !ok {
+						continue
+					}
+					pt, ok := fa.X.Type().Underlying().(*types.Pointer)
+					if !ok {
+						continue
+					}
+					n, ok := pt.Elem().(*types.Named)
+					if !ok || !tagged[n.Obj().Name()] || !core.IsRepoPkg(n.Obj().Pkg().Path()) {
+						continue
+					}
+					// loop-variant base: defined inside the loop (range element, map lookup ...)
+					if def, ok := fa.X.(ssa.Instruction); ok && l.Body[def.Block()] {
+						if _, isParam := fa.X.(*ssa.Parameter); !isParam && elementOfSharedTable(c, fa.X) {
+							at = in
+						}
+					}
+				}
+			}
+			if at != nil && enumeratesForCaller(fn) {
+				nFns++
+				r.Violation("GUARD", name+":tenant-filter", c.Pos(at.Pos()), "the function takes an organisation id and loops over organisation-tagged elements but never reads their organisation: the enumeration is not filtered by tenant")
+			}
 			continue
 		}
 		nFns++
-		name := shortFn(fn)
 		// comparisons elem.org <op> P
 		isOrgLoad := map[ssa.Value]bool{}
 		for _, l := range loads {
@@ -591,6 +628,77 @@ func adjacentVerbs(format string) bool {
 		}
 		prevVerbEnd = j
 		i = j
+	}
+	return false
+}
+
+// enumeratesForCaller: the loop's data leaves the function (it returns a
+// container or fills a parameter container), i.e. it answers a request on
+// behalf of the organisation passed in.
+func enumeratesForCaller(fn *ssa.Function) bool {
+	for _, b := range fn.Blocks {
+		for _, in := range b.Instrs {
+			if dataEffect(in) {
+				return true
+			}
+		}
+	}
+	return false
+}
+
+// elementOfSharedTable: v is an element drawn (range / index / lookup) from a
+// collection stored in a package-level variable — a raw shared table, not the
+// result of a call that already filtered by organisation.
+func elementOfSharedTable(c *core.Ctx, v ssa.Value) bool {
+	var coll ssa.Value
+	for i := 0; i < 6 && v != nil; i++ {
+		switch x := v.(type) {
+		case *ssa.Extract:
+			if nx, ok := x.Tuple.(*ssa.Next); ok {
+				if rg, ok := nx.Iter.(*ssa.Range); ok {
+					coll = rg.X
+				}
+				v = nil
+			} else {
+				v = x.Tuple
+			}
+		case *ssa.UnOp:
+			v = x.X
+		case *ssa.IndexAddr:
+			coll, v = x.X, nil
+		case *ssa.Index:
+			coll, v = x.X, nil
+		case *ssa.Lookup:
+			v = nil // a keyed lookup is not an enumeration
+		case *ssa.Phi:
+			if len(x.Edges) > 0 {
+				v = x.Edges[0]
+			} else {
+				v = nil
+			}
+		default:
+			v = nil
+		}
+	}
+	if coll == nil {
+		return false
+	}
+	for _, o := range c.Origins(coll, 0) {
+		if o.Kind == "global" {
+			return true
+		}
+		if o.Kind == "field" {
+			if fa, ok := o.Val.(*ssa.FieldAddr); ok {
+				if _, isG := fa.X.(*ssa.Global); isG {
+					return true
+				}
+				if u, ok := fa.X.(*ssa.UnOp); ok {
+					if _, isG := u.X.(*ssa.Global); isG {
+						return true
+					}
+				}
+			}
+		}
 	}
 	return false
 }
